@@ -306,6 +306,8 @@ SPECS = {
     "full": dict(max_items=lambda m, n: True, weights=_weights),
     # large-n slice of the quick tier: max_items in {None, 1, n-1, n+1}
     "slim": dict(max_items=lambda m, n: m in (1, n - 1, n + 1), weights=_weights),
+    # the largest slice of the thorough tier: max_items in {None, 1..n} (without n+1)
+    "spec": dict(max_items=lambda m, n: m <= n, weights=_weights),
     "pareto": dict(pareto_only=True),
 }
 
@@ -331,7 +333,7 @@ def task(t):
     return cov, list(found.values())
 
 
-PER_TASK = {"full": 250, "slim": 500, "pareto": 30000}
+PER_TASK = {"full": 250, "spec": 250, "slim": 500, "pareto": 30000}
 
 
 def tasks_for(vals, d, n, spec_name, per_task=None):
@@ -357,11 +359,11 @@ def plan(tier):
     else:
         out += [(G3, 1, n, "full") for n in range(0, 7)]
         out += [(G3, 2, n, "full") for n in range(0, 6)]
-        out += [(G3, 3, n, "full") for n in range(0, 5)]
+        out += [(G3, 3, n, "full") for n in range(0, 4)] + [(G3, 3, 4, "spec")]
         out += [(G3, 4, n, "full") for n in range(0, 3)] + [(G3, 4, 3, "pareto")]
         out += [(G3, 5, n, "full") for n in range(0, 3)]
-        out += [(G2, 4, n, "full") for n in range(3, 5)]
-        out += [(G2, 5, n, "full") for n in range(3, 4)] + [(G2, 5, 4, "pareto")]
+        out += [(G2, 4, 3, "full"), (G2, 4, 4, "pareto")]
+        out += [(G2, 5, 3, "full"), (G2, 5, 4, "pareto")]
     return out
 
 
